@@ -344,8 +344,24 @@ def stale_in_loop(cfg, loop, use_stmt, fnode):
         if name in target or name not in defs:
             continue
         avoid = [n for s in defs[name] for n in cfg.nodes_of(s)]
-        if any(cfg.path_exists(h, u, avoid=avoid) for h in heads for u in uses
-               if u not in avoid):
+        starts = list(heads)
+        # an assignment inside a try body whose right-hand side can raise leaves
+        # for the handler WITHOUT having bound the name: the handler's entry is
+        # reached with the old value whenever the assignment itself is
+        for s in defs[name]:
+            if not any(isinstance(c, _ast.Call) for c in _ast.walk(s)):
+                continue
+            for t in inside:
+                if isinstance(t, _ast.Try) and any(s is b or any(s is w for w in _ast.walk(b))
+                                                   for b in t.body):
+                    own = set(cfg.nodes_of(s))
+                    others = [n for n in avoid if n not in own]
+                    if any(cfg.path_exists(h, n, avoid=others) for h in heads for n in own):
+                        for h_ in t.handlers:
+                            if h_.body:
+                                starts += list(cfg.nodes_of(h_.body[0]))
+        if any(cfg.path_exists(h, u, avoid=avoid) for h in starts for u in uses
+               if u not in avoid and h not in avoid):
             out.append(name)
     return out
 
